@@ -658,6 +658,7 @@ def modelOp (d : DState) (toks : List String) : Option OpOut :=
         let (d2, s2) := settle d1 s1
         { d := putSess d2 s2, snaps := [n], tail := " w=" ++ showRes res isCall }
     | _ => none
+  | ["gc"] => some { d := d }            -- the garbage collector ran: nothing observable
   | ["purge", _] => some { d := d }
   | ["maxbytes", _] => some { d := d }
   | _ => none
@@ -834,11 +835,11 @@ def parseKObs (toks : List String) (impl : String) : Mon.KObs String :=
       match t.splitOn ":" with
       | "a" :: s :: stream :: _ => (parseT stream).map fun n => (s, n)
       | _ => none,
-    forced := itoks.any fun t =>
+    forced := itoks.filterMap fun t =>
       match t.splitOn ":" with
-      | ["p", _, _, _, fl] => fl != "u"
-      | ["p", _, _, _] => true
-      | _ => false,
+      | ["p", s, st, f, fl] => if fl == "u" then none else (parseT st).bind fun n => f.toNat?.map fun k => (s, n, k)
+      | ["p", s, st, f] => (parseT st).bind fun n => f.toNat?.map fun k => (s, n, k)
+      | _ => none,
     closed := itoks.filterMap fun t =>
       if !t.startsWith "S" || (t.splitOn "[?]").length > 1 then none else
       match t.splitOn "[" with
